@@ -74,3 +74,27 @@ void harness(void)
 	free(buf);
 	WITNESS("end");
 }
+
+/* Design invariant behind lha_input_stream_skip (which does not look at the lead-in buffer): by the time any member
+ * data can be skipped, the first header has been read, and the smallest header (level 0, empty name: 22 + 2 bytes,
+ * see l01.*: "header length >= minimum") is at least as long as the lead-in buffer - so the buffer is empty then,
+ * whatever the scan left in it.  Checked on the real code: from an arbitrary full buffer, reading the 22 common
+ * header bytes and then the 2 remaining bytes of the smallest header leaves nothing buffered. */
+void harness_leadin_drained(void)
+{
+	INPUT_ARRAY(u8, lead, sizeof(((LHAInputStream *) 0)->leadin));
+	INPUT(u32, len0);
+	static LHAInputStream st;
+	u8 b22[22], b2[2];
+	unsigned i;
+	ASSUME(len0 <= sizeof(st.leadin));
+	for (i = 0; i < sizeof(st.leadin); ++i) st.leadin[i] = lead[i];
+	st.type = &cb_type; st.handle = 0; st.leadin_len = len0; st.state = LHA_INPUT_STREAM_READING;
+	src_ret = 0;
+	(void) lha_input_stream_read(&st, b22, 22);
+	src_ret = 0;
+	(void) lha_input_stream_read(&st, b2, 2);
+	CHECK(st.leadin_len == 0, "C16: after the smallest possible header (24 bytes) has been read the lead-in buffer is empty, so skipping member data cannot replay stale bytes");
+	if (len0 == sizeof(st.leadin)) WITNESS("buffer was full");
+	WITNESS("end");
+}
